@@ -43,7 +43,9 @@ Enabled(v, a) ==
                         -> v[a.h].live /\ v[a.h2].live
       [] a.op = "Range" -> TRUE
 
-(* new table *)
+(* new table.  Functions return NEW values: the harness overwrites every returned slice in place
+   (up to its capacity) before it observes the handles, so a result that aliases an argument shows
+   up as a change of that argument - which Eff forbids (OTHER -> v). *)
 Eff(v, a) ==
     CASE a.op = "New"    -> [v EXCEPT ![a.h] = V(SeqSet(a.xs))]
       [] a.op = "Add"    -> [v EXCEPT ![a.h] = V(@.s \cup SeqSet(a.xs))]
